@@ -332,6 +332,10 @@ func genArpaName(rng *rand.Rand) string {
 			s = strings.Join(ps, ".")
 		}
 	}
+	if rng.IntN(25) == 0 {
+		// a second root behind the name (the first one then is just two more labels)
+		s = strings.TrimSuffix(s, ".") + "." + pick(rng, "in-addr.arpa", "ip6.arpa", "IN-ADDR.ARPA", "example.org.in-addr.arpa", "in-addr.arpa.ip6.arpa", "arpa")
+	}
 	if rng.IntN(16) == 0 {
 		// one, two, three trailing dots (on top of a root that may have one already)
 		s += strings.Repeat(".", 1+rng.IntN(3))
